@@ -112,6 +112,19 @@ PROPS = {
         level_text='Tens of thousands of searches and ~50 M observed prune decisions per quick run, each prune decision individually checked by evaluating the skipped work; held on the executions observed.',
         level_note='Trusted: Pre-order dfs() (checked by C19), match_node on a single node (judged by C02-C05). The prune hooks only ADD evaluation; the CLI comparison uses the hooked release binary.',
     ),
+    'C06': dict(
+        engines=[('vmon', 'c06')],
+        technique='runtime monitoring: invariant assertions on every proposed edit + splice oracle for the rewritten text and for rewrite transformations',
+        rule=('per corpus excerpt (23 languages) and per multi-byte / CRLF / syntax-error variant: cut patterns with (a) string fixes (literal, Unicode, multi-line, reordered variables), '
+              '(b) object fixes with expandStart/expandEnd (regex / kind rules, stopBy neighbor|end|rule), (c) rewrite transforms with a rewriter (kind or kind+pattern, literal or wrapping fix, '
+              'optional joinBy, optional expansions). For every match of the overlap-free visitor the edit must lie inside the file on character boundaries with valid UTF-8, start at the match '
+              '(or cover it when expanded, without leaving the parent), replace_all must be ordered/disjoint and as numerous as the visitor\'s matches, AstGrep::replace must yield exactly the '
+              'original with the first range substituted, and for single-line captures the transformed value must equal the harness splice of the first-matching, non-overlapping rewriter edits. '
+              'evaluations = generated (pattern, source) cases. Non-trivial = distinct (source, rule) with >= 2 edits, or multi-byte text within 16 bytes of an edit, or an expansion that moved a boundary, or >= 1 rewriter sub-edit.'),
+        floor={'quick': 2000, 'thorough': 50000},
+        level_text='~100 k edits per quick run are individually asserted and the rewritten text compared with an independent splice; held on the rewrites executed.',
+        level_note='Trusted: the harness splice, the overlap-free visitor as enumeration of matches (judged by C01). Multi-line rewriter captures and rewriters with expansions are checked for invariants only (valid UTF-8, no panic).',
+    ),
 }
 
 NOT_APPLICABLE = {}
